@@ -18,6 +18,7 @@ pub mod c14;
 pub mod c15;
 pub mod c16;
 pub mod c17;
+pub mod c18;
 pub mod c19;
 pub mod e2e_paths;
 
@@ -38,6 +39,7 @@ pub fn run(ctx: &Ctx) -> Option<Report> {
         "C15" => Some(c15::run(ctx)),
         "C16" => Some(c16::run(ctx)),
         "C17" => Some(c17::run(ctx)),
+        "C18" => Some(c18::run(ctx)),
         "C19" => Some(c19::run(ctx)),
         _ => None,
     }
@@ -63,6 +65,14 @@ pub fn replay(id: &str, doc: &Value) -> i32 {
 pub fn internal(args: &[String]) -> i32 {
     match args[0].as_str() {
         "--c08-child" => c08::child_main(args),
+        "--c18-threads" => c18::threads_child(args),
+        "--c18-first" => {
+            let k: usize = args.get(1).and_then(|s| s.parse().ok()).unwrap_or(0);
+            for d in c18::first_touch_digests(k) {
+                println!("{}", d);
+            }
+            0
+        }
         "--c10-digest" => {
             println!("{}", c10::corpus_digest());
             0
